@@ -30,6 +30,8 @@ func main() {
 			fmt.Printf("    %s -> %s  (%s @ %s)\n", e.From, e.To, strings.Join(e.Site.Chain, " > "), p.Pos(e.Site.Pos))
 		}
 	}
+	fmt.Println("== guarded-by statistics")
+	guardStats(p, lp)
 	fmt.Println("== same-instance re-acquisition")
 	var lines []string
 	for _, e := range lp.Edges {
